@@ -233,9 +233,151 @@ FZ_LOOPS = [
 inst("FreeZeroObjVariable", "FreeZeroObjVariablePS", XYSR,
      [("int", "m_j"), ("int", "m_old_j"), ("int", "m_old_i"), (R_, "m_bnd"), (DSV, "m_col"), (DSV, "m_lRhs"), (DSV, "m_rowObj"),
       (r"Array<DSVectorBase<R>>", "m_rows"), ("bool", "m_loFree")],
-     loops=FZ_LOOPS, min_obl=1000,
+     loops=FZ_LOOPS, min_obl=1000, defines={"CAP": "3", "DIM": "6"},
      must=[r"y\[idx\] = m_rowObj\[idx\];"],
-     mutants=[])
+     mutants=[mut("dom_status", "FreeZeroObjVariablePS", "cStatus[m_j] = SPxSolverBase<R>::BASIC;", "cStatus[m_j] = SPxSolverBase<R>::ZERO;"),
+              mut("row_status", "FreeZeroObjVariablePS", "rStatus[m_col.index(k)] = SPxSolverBase<R>::BASIC;", "rStatus[m_col.index(k)] = SPxSolverBase<R>::ON_LOWER;"),
+              mut("swap_bound", "FreeZeroObjVariablePS", "         cStatus[m_j] = SPxSolverBase<R>::ON_UPPER;\n      else", "         cStatus[m_j] = SPxSolverBase<R>::ON_LOWER;\n      else"),
+              mut("shift_start", "FreeZeroObjVariablePS", "int rIdx = m_old_i - m_col.size() + 1;", "int rIdx = m_old_i - m_col.size();"),
+              mut("shift_idx", "FreeZeroObjVariablePS", "cStatus[m_old_j] = cStatus[m_j];", "cStatus[m_j] = cStatus[m_old_j];")])
+
+
+def simple_loop(n, kname, others, bound="g_n"):
+    return {"function": BODY, "loop": n, "locals": [["k", kname]] + others, "invariants": ["0<=k && k<=%s" % bound],
+            "assigns": ["k"] + [o if isinstance(o, str) else o[0] for o in others], "decreases": "%s-k" % bound}
+
+
+inst("ZeroObjColSingleton", "ZeroObjColSingletonPS", XYSR,
+     [("int", "m_j"), ("int", "m_i"), ("int", "m_old_j"), (R_, "m_lhs"), (R_, "m_rhs"), (R_, "m_lower"), (R_, "m_upper"), (DSV, "m_row")],
+     tier="thorough", min_obl=500,
+     mutants=[mut("swap_status", "ZeroObjColSingletonPS", "         x[m_j]       = m_upper;\n         cStatus[m_j] = SPxSolverBase<R>::ON_UPPER;\n      }\n      else if(aij < 0)\n      {\n         x[m_j]       = m_lower;\n         cStatus[m_j] = SPxSolverBase<R>::ON_LOWER;",
+                  "         x[m_j]       = m_upper;\n         cStatus[m_j] = SPxSolverBase<R>::ON_LOWER;\n      }\n      else if(aij < 0)\n      {\n         x[m_j]       = m_lower;\n         cStatus[m_j] = SPxSolverBase<R>::ON_LOWER;"),
+              mut("drop_row_status", "ZeroObjColSingletonPS", "         rStatus[m_i] = (aij > 0 ? SPxSolverBase<R>::ON_LOWER : SPxSolverBase<R>::ON_UPPER);", "         ;"),
+              mut("shift_idx", "ZeroObjColSingletonPS", "cStatus[m_old_j] = cStatus[m_j];", "cStatus[m_j] = cStatus[m_old_j];"),
+              mut("basic_in_nonbasic_case", "ZeroObjColSingletonPS", "         x[m_j] = 0.0;\n         cStatus[m_j] = SPxSolverBase<R>::ZERO;", "         x[m_j] = 0.0;\n         cStatus[m_j] = SPxSolverBase<R>::BASIC;")])
+
+inst("FreeColSingleton", "FreeColSingletonPS", XYSR,
+     [("int", "m_j"), ("int", "m_i"), ("int", "m_old_j"), ("int", "m_old_i"), (R_, "m_obj"), (R_, "m_lRhs"), ("bool", "m_onLhs"), ("bool", "m_eqCons"), (DSV, "m_row")],
+     tier="thorough", min_obl=500, loops=[simple_loop(0, "1::3::k", ["val"])],
+     mutants=[mut("col_status", "FreeColSingletonPS", "cStatus[m_j] = SPxSolverBase<R>::BASIC;", "cStatus[m_j] = SPxSolverBase<R>::ZERO;"),
+              mut("row_status", "FreeColSingletonPS", "rStatus[m_i] = SPxSolverBase<R>::FIXED;", "rStatus[m_i] = SPxSolverBase<R>::BASIC;"),
+              mut("shift_idx", "FreeColSingletonPS", "x[m_old_j] = x[m_j];", "x[m_old_j] = x[m_old_j];"),
+              mut("wrong_row", "FreeColSingletonPS", "rStatus[m_old_i] = rStatus[m_i];", "rStatus[m_old_i] = rStatus[m_old_i];")])
+
+inst("MultiAggregation", "MultiAggregationPS", XYSR,
+     [("int", "m_j"), ("int", "m_i"), ("int", "m_old_j"), ("int", "m_old_i"), (R_, "m_upper"), (R_, "m_lower"), (R_, "m_obj"), (R_, "m_const"),
+      ("bool", "m_onLhs"), ("bool", "m_eqCons"), (DSV, "m_row"), (DSV, "m_col")],
+     tier="thorough", min_obl=500, loops=[simple_loop(0, "1::3::k", ["val"]), simple_loop(1, "1::4::k", ["dualVal"], "g_n2")],
+     mutants=[mut("col_status", "MultiAggregationPS", "cStatus[m_j] = SPxSolverBase<R>::BASIC;", "cStatus[m_j] = SPxSolverBase<R>::FIXED;"),
+              mut("redcost", "MultiAggregationPS", "r[m_j] = 0.0;", "r[m_old_j] = 0.0;"),
+              mut("swap_status", "MultiAggregationPS", "rStatus[m_i] = SPxSolverBase<R>::ON_LOWER;", "rStatus[m_i] = SPxSolverBase<R>::ON_UPPER;")])
+
+inst("Aggregation", "AggregationPS", XYSR,
+     [("int", "m_j"), ("int", "m_i"), ("int", "m_old_j"), ("int", "m_old_i"), (R_, "m_upper"), (R_, "m_lower"), (R_, "m_obj"), (R_, "m_oldupper"),
+      (R_, "m_oldlower"), (R_, "m_rhs"), (DSV, "m_row"), (DSV, "m_col")],
+     tier="thorough", min_obl=500,
+     loops=[{"function": BODY, "loop": 0, "locals": [["k", "1::3::k"], "active_idx", "val"],
+             "invariants": ["0<=k && k<=2",
+                            "(k==0 && active_idx==-1) || (k==1 && active_idx==(gp_i1[0]==g_b ? -1 : gp_i1[0])) || (k==2 && active_idx==g_a)"],
+             "assigns": ["k", "active_idx", "val"], "decreases": "2-k"},
+            simple_loop(1, "1::5::k", ["dualVal"])],
+     mutants=[mut("act_status", "AggregationPS", "cStatus[active_idx] = SPxSolverBase<R>::BASIC;", "cStatus[active_idx] = SPxSolverBase<R>::FIXED;"),
+              mut("else_status", "AggregationPS", "      cStatus[m_j] = SPxSolverBase<R>::BASIC;\n   }\n\n   // sides", "      cStatus[m_j] = SPxSolverBase<R>::ON_LOWER;\n   }\n\n   // sides"),
+              mut("row_status", "AggregationPS", "rStatus[m_i] = SPxSolverBase<R>::ON_UPPER;", "rStatus[m_i] = SPxSolverBase<R>::BASIC;"),
+              mut("both_basic", "AggregationPS", "         cStatus[m_j] = SPxSolverBase<R>::ZERO;", "         cStatus[m_j] = SPxSolverBase<R>::BASIC;")])
+
+inst("DoubletonEquation", "DoubletonEquationPS", ["x", "y", "", "r", "cStatus", "rStatus", "isOptimal"],
+     [("int", "m_j"), ("int", "m_k"), ("int", "m_i"), ("bool", "m_maxSense"), ("bool", "m_jFixed"), (R_, "m_jObj"), (R_, "m_kObj"), (R_, "m_aij"),
+      ("bool", "m_strictLo"), ("bool", "m_strictUp"), (R_, "m_newLo"), (R_, "m_newUp"), (R_, "m_oldLo"), (R_, "m_oldUp"), (R_, "m_Lo_j"), (R_, "m_Up_j"),
+      (R_, "m_lhs"), (R_, "m_rhs"), (DSV, "m_col")],
+     tier="thorough", min_obl=400,
+     loops=[{"function": BODY, "loop": 0, "locals": ["_k", "val"], "invariants": ["0<=_k && _k<=g_n"], "assigns": ["_k", "val"], "decreases": "g_n-_k"}],
+     mutants=[mut("k_status", "DoubletonEquationPS", "cStatus[m_k] = SPxSolverBase<R>::BASIC;", "cStatus[m_k] = SPxSolverBase<R>::ON_LOWER;"),
+              mut("j_status", "DoubletonEquationPS", "            cStatus[m_j] = SPxSolverBase<R>::ON_UPPER;", "            cStatus[m_j] = SPxSolverBase<R>::BASIC;"),
+              mut("wrong_index", "DoubletonEquationPS", "r[m_k] = 0.0;", "r[m_j] = 0.0;"),
+              mut("guard", "DoubletonEquationPS", "if((cStatus[m_k]  != SPxSolverBase<R>::BASIC) &&", "if((cStatus[m_k]  == SPxSolverBase<R>::BASIC) ||")])
+
+
+def col_same(pos, vx, vr, vcs):
+    return "(%s && %s && gp_cst[%s]==%s)" % (same("gp_x[%s]" % pos, vx), same("gp_r[%s]" % pos, vr), pos, vcs)
+
+
+inst("DuplicateCols", "DuplicateColsPS", ["x", "", "", "r", "cStatus", "rStatus", "isOptimal"],
+     [("int", "m_j"), ("int", "m_k"), (R_, "m_loJ"), (R_, "m_upJ"), (R_, "m_loK"), (R_, "m_upK"), (R_, "m_scale"), ("bool", "m_isFirst"),
+      ("bool", "m_isLast"), (r"DataArray<int>", "m_perm")],
+     tier="thorough", min_obl=800,
+     loops=[{"function": BODY, "loop": 0, "locals": ["i"],
+             "invariants": ["-1<=i && i<g_n",
+                            "(g_kc < g_n && gp_i1[g_kc] >= 0 && g_kc > i) ? " + col_same("g_kc", "v_x2", "v_r2", "v_cs2") + " : " + col_same("g_kc", "v_x", "v_r", "v_cs"),
+                            "g_a > i || " + col_same("g_a", "v_x2", "v_r2", "v_cs2")],
+             "assigns": ["i", "__CPROVER_object_whole(gp_x)", "__CPROVER_object_whole(gp_r)", "__CPROVER_object_whole(gp_cst)"],
+             "decreases": "i+1"}],
+     mutants=[mut("perm_dir", "DuplicateColsPS", "cStatus[cIdx] = cStatus[cIdx_new];", "cStatus[cIdx_new] = cStatus[cIdx];"),
+              mut("swap_status", "DuplicateColsPS", "         x[m_j]       = m_loJ;\n         cStatus[m_j] = (m_loJ == m_upJ) ? SPxSolverBase<R>::FIXED : SPxSolverBase<R>::ON_LOWER;\n      }\n      else\n      {\n         x[m_j]       = m_upJ;",
+                  "         x[m_j]       = m_loJ;\n         cStatus[m_j] = (m_loJ == m_upJ) ? SPxSolverBase<R>::FIXED : SPxSolverBase<R>::ON_UPPER;\n      }\n      else\n      {\n         x[m_j]       = m_upJ;"),
+              mut("both_basic", "DuplicateColsPS", "            cStatus[m_k] = (m_loK == m_upK) ? SPxSolverBase<R>::FIXED : SPxSolverBase<R>::ON_UPPER;\n            x[m_k] = m_upK;\n            cStatus[m_j] = SPxSolverBase<R>::BASIC;",
+                  "            x[m_k] = m_upK;\n            cStatus[m_j] = SPxSolverBase<R>::BASIC;"),
+              mut("wrong_index", "DuplicateColsPS", "      x[m_j]       = m_loJ;\n      cStatus[m_j] = SPxSolverBase<R>::FIXED;", "      x[m_j]       = m_loJ;\n      cStatus[m_k] = SPxSolverBase<R>::FIXED;")])
+
+
+def sv_has(idx, n, i):
+    """text of SV_HAS(idx, n, i) (ps_contract.h) for loop invariants"""
+    return "(" + " || ".join("(%d < %s && %s[%d] == %s)" % (k, n, idx, k, i) for k in range(8)) + ")"
+
+
+def nb(e):
+    return "(%s != %d)" % (e, BASIC)
+
+
+def defined(e):
+    return "(0 <= %s && %s <= %d)" % (e, e, BASIC)
+
+
+RS_P, RS_Q, RS_MI = "gp_rst[gp_i1[g_k2]]", "gp_rst[gp_i1[g_kc2]]", "gp_rst[g_a]"
+
+
+def rs_cand(m):
+    return "(0 <= %s && %s < g_nR && %s != g_a && %s && %s)" % (m, m, m, sv_has("gp_i1", "k", m), nb("gp_rst[%s]" % m))
+
+
+inst("DuplicateRows", "DuplicateRowsPS", ["", "y", "s", "", "cStatus", "rStatus", "isOptimal"],
+     [("int", "m_i"), (R_, "m_i_rowObj"), ("int", "m_maxLhsIdx"), ("int", "m_minRhsIdx"), ("bool", "m_maxSense"), ("bool", "m_isFirst"),
+      ("bool", "m_isLast"), ("bool", "m_fixed"), ("int", "m_nCols"), (DSV, "m_scale"), (DSV, "m_rowObj"), (r"DataArray<int>", "m_rIdxLocalOld"),
+      (r"DataArray<int>", "m_perm"), (r"DataArray<bool>", "m_isLhsEqualRhs")],
+     tier="thorough", min_obl=1000,
+     loops=[{"function": BODY, "loop": 0, "locals": [["i", "PERM_I"]],
+             "invariants": ["-1<=i && i<g_n2",
+                            "(g_kr < g_n2 && gp_i2[g_kr] >= 0 && g_kr > i) ? " + row_same("g_kr", "v_y2", "v_s2", "v_rs3") + " : " + row_same("g_kr", "v_y", "v_s", "v_rs"),
+                            "g_b > i || " + row_same("g_b", "v_y2", "v_s2", "v_rs3"),
+                            "g_a <= i || gp_rst[g_a]==v_rs2",
+                            "g_e > i || gp_rst[g_e]==v_rs2"],
+             "assigns": ["i", "__CPROVER_object_whole(gp_s)", "__CPROVER_object_whole(gp_y)", "__CPROVER_object_whole(gp_rst)"],
+             "decreases": "i+1"},
+            {"function": BODY, "loop": 1, "locals": [["k", "K1"]],
+             "invariants": ["0<=k && k<=g_n", "g_in != 0 || " + same("gp_s[g_kr]", "v_s2")],
+             "assigns": ["k", "__CPROVER_object_whole(gp_s)"], "decreases": "g_n-k"},
+            {"function": BODY, "loop": 2, "locals": [["k", "K2"], "haveSetBasis"],
+             "invariants": ["0<=k && k<=g_n",
+                            "haveSetBasis || %s==v_rs2" % RS_MI,
+                            "!haveSetBasis || v_rs2 != %d" % BASIC,
+                            "v_rs2 != %d || g_k2 >= k || %s==%d" % (BASIC, RS_P, BASIC),
+                            "!(g_k2 < k && g_kc2 < k && g_k2 != g_kc2 && %s) || !%s" % (nb(RS_P), nb(RS_Q)),
+                            "!(g_k2 < k && gp_i1[g_k2] != g_a && %s) || !%s" % (nb(RS_P), nb(RS_MI)),
+                            "v_rs2 == %d || %s || (haveSetBasis && (%s || %s))" % (BASIC, nb(RS_MI), rs_cand("g_c"), rs_cand("g_d")),
+                            "!(g_k2 < k && gp_i1[g_k2] != g_a && %s==%d) || %s" % (RS_P, BASIC, same("gp_y[gp_i1[g_k2]]", "gp_d1[g_k2]")),
+                            "!(%s==%d && (v_rs2 != %d || %s)) || %s" % (RS_MI, BASIC, BASIC, sv_has("gp_i1", "k", "g_a"), same("gp_y[g_a]", "v_x2")),
+                            "g_k2 >= k || " + defined(RS_P), defined(RS_MI),
+                            "!(g_k2 < k && gp_i1[g_k2] != g_a && %s) || (%s==%d || %s==%d || %s==%d)" % (nb(RS_P), RS_P, FIXED, RS_P, ON_LOWER, RS_P, ON_UPPER),
+                            "g_in != 0 || (%s && gp_rst[g_kr]==v_rs3)" % same("gp_y[g_kr]", "v_y2")],
+             "assigns": ["k", "haveSetBasis", "__CPROVER_object_whole(gp_y)", "__CPROVER_object_whole(gp_rst)"], "decreases": "g_n-k"}],
+     mutants=[mut("dup_status", "DuplicateRowsPS", "         y[i]       = m_rowObj.value(k);\n         rStatus[i] = SPxSolverBase<R>::BASIC;\n      }\n   }",
+                  "         y[i]       = m_rowObj.value(k);\n         rStatus[i] = SPxSolverBase<R>::ON_LOWER;\n      }\n   }"),
+              mut("drop_mi_basic", "DuplicateRowsPS", "            rStatus[m_i] = SPxSolverBase<R>::BASIC;\n\n         haveSetBasis = true;\n      }\n      else if(i == m_minRhsIdx",
+                  "            ;\n\n         haveSetBasis = true;\n      }\n      else if(i == m_minRhsIdx"),
+              mut("perm_dir", "DuplicateRowsPS", "rStatus[rIdx] = rStatus[rIdx_new];", "rStatus[rIdx_new] = rStatus[rIdx];"),
+              mut("drop_flag", "DuplicateRowsPS", "         haveSetBasis = true;\n      }\n      else if(i == m_maxLhsIdx", "         ;\n      }\n      else if(i == m_maxLhsIdx"),
+              mut("dual", "DuplicateRowsPS", "         y[i]       = m_rowObj.value(k);\n         rStatus[i] = SPxSolverBase<R>::BASIC;\n         continue;",
+                  "         y[m_i]       = m_rowObj.value(k);\n         rStatus[i] = SPxSolverBase<R>::BASIC;\n         continue;")])
 
 # ---------------------------------------------------------------------------------------------------
 UNIT = {
@@ -243,10 +385,10 @@ UNIT = {
     "desc": "postsolve steps SPxMainSM<R>::*PS::execute (spxmainsm.hpp): basis cardinality delta, index-shift undo, frame, "
             "exact complementary facts; real bodies at R = double",
     "rmode": "double (IEEE, bit-precise); tolerance comparisons EQrel/isZero/GErel/... = arbitrary booleans",
-    "defines": {"CAP": "4", "DIM": "8"},
+    "defines": {"CAP": "4", "DIM": "6"},
     "defines_small": {"CAP": "2", "DIM": "4"},
     "flags": ["--bounds-check", "--pointer-check"],
-    "timeout_s": 280, "mem_gb": 8,
+    "timeout_s": 600, "mem_gb": 8,
     "constants": [{"name": "SOPLEX_DEFAULT_INFINITY", "file": "src/soplex/spxdefines.h",
                    "regex": r"#define\s+SOPLEX_DEFAULT_INFINITY\s+([0-9.e+]+)\s*\n"}],
     "extracts": [{"as": "VarStatus.inc", "file": "src/soplex/spxsolver.h",
